@@ -3,6 +3,7 @@
 -/
 import Props.Writer
 import Props.C04
+import Props.ImageSegment
 namespace Slinky.C09
 open Slinky W C04
 
@@ -152,5 +153,73 @@ theorem absent_adds_nothing (cx : Ctx) (seg : Segment) (secs : List Str) (noload
       · simp [symEndSize] at hl
         rcases hl with rfl | rfl | rfl <;> rfl
       · simp at hl
+
+
+/-! ### in the linked image (the linker semantics `Slinkyv.Ld`) -/
+
+theorem alignO_dvd (o : Option Nat) (x a : Nat) (h : o = some a) (ha : 1 ≤ a) : a ∣ Ld.alignO o x := by
+  subst h
+  simp only [Ld.alignO, Ld.alignUp_eq]
+  exact alignUp_dvd x a ha
+
+/-- after both optional alignments the second request always holds and the first one holds
+too when one of the two divides the other (always the case for powers of two). -/
+theorem alignO_both (o₁ o₂ : Option Nat) (x b : Nat) (h₁ : o₁ = some b) (hb : 1 ≤ b)
+    (h₂ : o₂ = none ∨ ∃ a, o₂ = some a ∧ 1 ≤ a ∧ (b ∣ a ∨ a ∣ b)) : b ∣ Ld.alignO o₂ (Ld.alignO o₁ x) := by
+  subst h₁
+  rcases h₂ with rfl | ⟨a, rfl, ha, hab⟩
+  · simp only [Ld.alignO, Ld.alignUp_eq]; exact alignUp_dvd x b hb
+  · simp only [Ld.alignO, Ld.alignUp_eq]; exact (align_both x b a hb ha hab).1
+
+open Ld in
+/-- **C09, image clause for a section group**: measured from the start of the output section
+that contains it, the group's start symbol is a multiple of that section's entry of
+`sections_start_alignment`, and of `section_start_align` as well when one of the two divides
+the other (or only one is given); likewise its end symbol for the two end alignments — for
+every object table and every state of the link. -/
+theorem image_group_alignment (objs : List InSec) (cx : Ctx) (seg : Segment) (sec : Str) (hsy : cx.emitSecSyms = true)
+    (body : List Line) (hb : ∀ l ∈ body, BodyLine cx.d.settings.style seg.wildcardSections l)
+    (c : Cur) (st : St) (hin : Inside c st) (k : List Line) :
+    ∃ (s e : Nat) (st' : St),
+      st' = execK objs st (sectionSymStart cx seg sec ++ body ++ sectionSymEnd cx seg sec) k ∧
+      lookupLast (cx.d.settings.style.secStart seg.name sec) st'.syms = some (.num s) ∧
+      lookupLast (cx.d.settings.style.secEnd seg.name sec) st'.syms = some (.num e) ∧
+      c.addr ≤ s ∧ c.addr ≤ e ∧
+      (∀ a, lookup sec seg.sectionsStartAlignment = some a → 1 ≤ a → a ∣ (s - c.addr)) ∧
+      (∀ b, seg.sectionStartAlign = some b → 1 ≤ b →
+        (lookup sec seg.sectionsStartAlignment = none ∨ ∃ a, lookup sec seg.sectionsStartAlignment = some a ∧ 1 ≤ a ∧ (b ∣ a ∨ a ∣ b)) →
+        b ∣ (s - c.addr)) ∧
+      (∀ a, lookup sec seg.sectionsEndAlignment = some a → 1 ≤ a → a ∣ (e - c.addr)) ∧
+      (∀ b, seg.sectionEndAlign = some b → 1 ≤ b →
+        (lookup sec seg.sectionsEndAlignment = none ∨ ∃ a, lookup sec seg.sectionsEndAlignment = some a ∧ 1 ≤ a ∧ (b ∣ a ∨ a ∣ b)) →
+        b ∣ (e - c.addr)) := by
+  obtain ⟨s, e, new, st', h0, hs, _, _, _, _, _, h7, h8, _, _, _, _, m, _, he⟩ := group_image objs cx seg sec hsy body hb c st hin k
+  refine ⟨s, e, st', h0, h7, h8, by omega, by omega, ?_, ?_, ?_, ?_⟩
+  · intro a ha h1
+    rw [hs, Nat.add_sub_cancel_left]
+    exact alignO_dvd _ _ a ha h1
+  · intro b hb h1 h2
+    rw [hs, Nat.add_sub_cancel_left]
+    exact alignO_both _ _ _ b hb h1 h2
+  · intro a ha h1
+    rw [he, Nat.add_sub_cancel_left]
+    exact alignO_dvd _ _ a ha h1
+  · intro b hb h1 h2
+    rw [he, Nat.add_sub_cancel_left]
+    exact alignO_both _ _ _ b hb h1 h2
+
+open Ld in
+/-- **C09, image clause for `subalign`**: with `subalign: n` every input section that the
+statements of an output section of the segment place starts at a multiple of `n`. -/
+theorem image_subalign (objs : List InSec) (cx : Ctx) (seg : Segment) (secs : List Str) (noload : Bool)
+    (ls : List Line) (h : writeSegment cx seg secs noload = .ok ls) (st : St) (ho : Outside st) (k : List Line)
+    (n : Nat) (hn : seg.subalign = some n) (h1 : 1 ≤ n) :
+    ∃ new, (execK objs st ls k).placed = st.placed ++ new ∧ ∀ p ∈ new, n ∣ p.addr := by
+  obtain ⟨start, end_, al, new, st', name, addr, h0, _, _, _, _, _, _, _, h8, _, h10, _⟩ := section_image objs cx seg secs noload ls h st ho k
+  refine ⟨new, h0 ▸ h8, ?_⟩
+  intro p hp
+  have := h10 p hp
+  rw [hn] at this
+  exact this h1
 
 end Slinky.C09
